@@ -149,13 +149,17 @@ def run (j : Json) : Except String Json := do
       let O ← Typedpy.Wire.oraclesOfJson j
       let cls ← Typedpy.Wire.declOfJson cj
       let opts : Typedpy.DeserOpts := { keepUndefined := adjustedKeep keep addl, ignoreInvalidAddl := true }
-      let w := match Typedpy.ConvertDeser.deserializeVersioned O opts cls msOpt doc with
+      let trusted := match j.getObjVal? "trusted" with | .ok (.bool b) => b | _ => false
+      let w := match (if trusted then Typedpy.ConvertDeser.deserializeVersionedTrusted O opts cls msOpt doc
+                      else Typedpy.ConvertDeser.deserializeVersioned O opts cls msOpt doc) with
         | .error e => Json.mkObj [("err", .str (errName e)), ("stage", .str "prologue")]
         | .ok r => Typedpy.Wire.resToJson r
       let plain ← match Typedpy.Wire.optField j "plainCls", full with
         | some pj, .ok d' => do
           let pc ← Typedpy.Wire.declOfJson pj
-          pure [("deserPlainModel", Typedpy.Wire.resToJson (Typedpy.ConvertDeser.deserializePlain O opts pc d'))]
+          pure [("deserPlainModel", Typedpy.Wire.resToJson
+            (if trusted then Typedpy.deserializeTrusted Typedpy.noMappers O opts pc (Typedpy.ConvertDeser.toPy d')
+             else Typedpy.ConvertDeser.deserializePlain O opts pc d'))]
         | _, _ => pure []
       pure ([("deserWhole", w)] ++ plain)
   -- the heap-level model (Sem/AliasC17.lean) with the copy sites of the source under test, against the value-level model
